@@ -130,48 +130,6 @@ theorem hexdec_bytes (s : Text) (bs : List Nat) (h : hexdec s = some bs) : bs.al
   | case4 => cases h
 
 
-theorem b64Val_lt : ∀ url c x, b64Val? url c = some x → x < 64 := by
-  intro url c x h
-  unfold b64Val? at h
-  simp only [Bool.and_eq_true, decide_eq_true_eq] at h
-  cases url <;> simp only [if_true, if_false, Bool.false_eq_true] at h <;>
-  · split at h
-    · injection h with e; omega
-    · split at h
-      · injection h with e; omega
-      · split at h
-        · injection h with e; omega
-        · split at h
-          · injection h with e; omega
-          · split at h
-            · injection h with e; omega
-            · cases h
-
-theorem b64dec_bytes (url : Bool) (s : Text) (bs : List Nat) (h : b64dec url s = some bs) :
-    bs.all (fun b => decide (b < 256)) = true := by
-  fun_induction b64dec url s generalizing bs with
-  | case1 => injection h with e; subst e; rfl
-  | case2 c1 c2 v1 v2 h1 h2 =>
-    injection h with e; subst e
-    have := b64Val_lt url c1 v1 (by assumption); have := b64Val_lt url c2 v2 (by assumption)
-    simp; omega
-  | case3 => cases h
-  | case4 c1 c2 c3 _ v1 v2 v3 h1 h2 h3 =>
-    injection h with e; subst e
-    have := b64Val_lt url c1 v1 (by assumption); have := b64Val_lt url c2 v2 (by assumption); have := b64Val_lt url c3 v3 (by assumption)
-    simp; omega
-  | case5 => cases h
-  | case6 c1 c2 c3 c4 r _ _ v1 v2 v3 v4 bs' h1 h2 h3 h4 hr ih =>
-    injection h with e; subst e
-    have := b64Val_lt url c1 v1 (by assumption); have := b64Val_lt url c2 v2 (by assumption); have := b64Val_lt url c3 v3 (by assumption)
-    have := b64Val_lt url c4 v4 (by assumption)
-    have := ih bs' (by assumption)
-    simp_all; omega
-  | case7 => cases h
-  | case8 => cases h
-
-
-
 theorem bytesOk_of_all (bs : List Nat) (h : bs.all (fun b => decide (b < 256)) = true) : bytesOk bs := by
   intro b hb; simp at h; exact h b hb
 
